@@ -679,7 +679,7 @@ brk("C08", "backward pass applies pre control before post control", "H2", _sub(
                     current_node, current_edges, post_measurement_control.T)
 
             forwardprop_tensor = forwardprop_derivs_list[step-1]'''))
-brk("C08", "backprop MPO swaps only the system legs", "H2", _sub(
+brk("C08", "backprop MPO swaps only the system legs", "H7", _sub(
     SD, '        pt_mpo = np.swapaxes(pt_mpo, 0, 1) # internal bond legs\n', ''))
 brk("C08", "derivative propagators read the wrong half step", "H1", _sub(
     SY, '''            pre_params=parameters[2*step]
@@ -1275,6 +1275,67 @@ for _pid, _rule in (("C03", "M9"), ("C18", "O6"), ("C20", "A9")):
         SD, '            pt_mpos = _get_pt_mpos(process_tensors, step)\n\n            current_node, current_edges = _apply_system_superoperator(\n                current_node, current_edges, first_half_prop)\n',
         '            pt_mpos = _get_pt_mpos(process_tensors, step)\n            pt_mpos[0] = pt_mpos[0] / 1.0\n\n            current_node, current_edges = _apply_system_superoperator(\n                current_node, current_edges, first_half_prop)\n'))
 
+# ------------------------------------------------------------------ C16 X9: export / import move, they do not compute
+PTM = "oqupy/process_tensor.py"
+brk("C16", "export rounds the MPO tensors to 12 decimals to save space", "X9", _sub(
+    PTM, '            pt_file.set_mpo_tensor(step, mpo)\n', '            pt_file.set_mpo_tensor(step, np.round(mpo, 12))\n'))
+brk("C16", "simple import normalises the cap tensors", "X9", _sub(
+    PTM, '            pt.set_cap_tensor(step, cap)\n', '            pt.set_cap_tensor(step, cap / np.linalg.norm(cap))\n'))
+brk("C16", "HDF5 helper stores the real part when the imaginary part is 'negligible'", "X9", _sub(
+    PTM, '    tensor = tensor.reshape(-1)\n    data[step] = tensor\n', '    tensor = tensor.reshape(-1)\n    if np.allclose(tensor.imag, 0.0):\n        tensor = tensor.real + 0.0j\n    data[step] = tensor\n'))
+ok("C16", "HDF5 helper stores a contiguous copy", _sub(
+    PTM, '    tensor = tensor.reshape(-1)\n    data[step] = tensor\n', '    flat = np.ascontiguousarray(tensor).reshape(-1)\n    data[step] = flat\n'))
+ok("C16", "simple import copies each MPO tensor explicitly", _sub(
+    PTM, '            pt.set_mpo_tensor(step, mpo)\n', '            pt.set_mpo_tensor(step, np.array(mpo, dtype=NpDtype).copy())\n'))
+
+# ------------------------------------------------------------------ late-binding closures (C06 R4, C09 F6, C20 A10)
+_MF_INFL = '        influence_list = [self._get_influence(bath)\n                for bath in self._parsed_parameters_dict["bath"]]\n'
+def _mf_loop(body):
+    return _sub(TE, _MF_INFL, '        influence_list = []\n        for bath in self._parsed_parameters_dict["bath"]:\n' + body)
+for _pid, _rule in (("C06", "R4"), ("C09", "F6"), ("C20", "A10")):
+    brk(_pid, "mean-field influence functions as lambdas in a loop reading the loop's bath", _rule, _mf_loop(
+        '            infl = self._get_influence(bath)\n            influence_list.append(lambda dk: infl(dk))\n'))
+    brk(_pid, "mean-field influence functions as lambdas in a comprehension reading its variable", _rule, _sub(
+        TE, _MF_INFL, '        influence_list = [lambda dk: self._get_influence(bath)(dk)\n                for bath in self._parsed_parameters_dict["bath"]]\n'))
+    ok(_pid, "mean-field influence functions as lambdas in a loop, bath bound by a default argument", _mf_loop(
+        '            infl = self._get_influence(bath)\n            influence_list.append(lambda dk, infl=infl: infl(dk))\n'))
+    ok(_pid, "mean-field influence functions built in a plain loop by the factory method", _mf_loop(
+        '            influence_list.append(self._get_influence(bath))\n'))
+
+# ------------------------------------------------------------------ list slots folded at read time (C18 O1, C07 V10)
+_CT_STEP_ADD = '            steps = self._step_controls[pre_post].keys()\n            if time in steps:\n                self._step_controls[pre_post][time] = \\\n                    control_operation @ self._step_controls[pre_post][time]\n            else:\n                self._step_controls[pre_post][time] = control_operation\n'
+_CT_PRE_GET = "            pre_control = self._step_controls['pre'][step] @ pre_control\n"
+_CT_POST_GET = "            post_control = self._step_controls['post'][step] @ post_control\n"
+def _ct_lists(fold):
+    return _multi(
+        _sub(CT, 'from copy import deepcopy\n', 'from copy import deepcopy\nfrom functools import reduce\n'),
+        _sub(CT, _CT_STEP_ADD, '            self._step_controls[pre_post].setdefault(time, []).append(\n                control_operation)\n'),
+        _sub(CT, _CT_PRE_GET, "            pre_control = " + fold.replace("SLOT", "self._step_controls['pre'][step]") + " @ pre_control\n"),
+        _sub(CT, _CT_POST_GET, "            post_control = " + fold.replace("SLOT", "self._step_controls['post'][step]") + " @ post_control\n"))
+for _pid, _rule in (("C18", "O1"), ("C07", "V10")):
+    brk(_pid, "step controls kept as lists and folded with reduce(np.matmul): first added acts last", _rule,
+        _ct_lists("reduce(np.matmul, SLOT)"))
+    brk(_pid, "step controls kept as lists and folded with np.linalg.multi_dot", _rule,
+        _ct_lists("np.linalg.multi_dot(SLOT + [np.identity(self.dimension**2)])"))
+    ok(_pid, "step controls kept as lists and folded with the later addition on the left", 
+       _ct_lists("reduce(lambda acc, op: op @ acc, SLOT)"))
+    ok(_pid, "step controls kept as lists and folded with reduce(np.matmul) over the reversed list",
+       _ct_lists("reduce(np.matmul, reversed(SLOT))"))
+
+# ------------------------------------------------------------------ C08 H7: one transposition per leg pair in the backward pass
+_AP_HEAD = '    indexed_pt_mpos = list(enumerate(pt_mpos))\n    if reverse:\n'
+_AP_BODY_SYS = "        new_sys_edge = pt_mpo_node[3]\n        current_edges[i] ^ pt_mpo_node[0]\n        current_edges[-1] ^ pt_mpo_node[2]\n"
+_AP_SYS_FLAGGED = _multi(
+    _sub(SD, _AP_HEAD, '    indexed_pt_mpos = list(enumerate(pt_mpos))\n    sys_in, sys_out = (3, 2) if reverse else (2, 3)\n    if reverse:\n'),
+    _sub(SD, _AP_BODY_SYS, "        new_sys_edge = pt_mpo_node[sys_out]\n        current_edges[i] ^ pt_mpo_node[0]\n        current_edges[-1] ^ pt_mpo_node[sys_in]\n"))
+_BP_SYS_SWAP = '        pt_mpo = np.swapaxes(pt_mpo, 2, 3) # system propagator legs\n'
+brk("C08", "system legs exchanged by the backward MPO copies AND by _apply_pt_mpos(reverse=True)", "H7", _AP_SYS_FLAGGED)
+brk("C08", "backward MPO copies no longer exchange the system legs", "H7", _sub(SD, _BP_SYS_SWAP, ''))
+ok("C08", "system legs exchanged by _apply_pt_mpos(reverse=True) instead of by the backward MPO copies", _multi(
+    _AP_SYS_FLAGGED, _sub(SD, _BP_SYS_SWAP, '')))
+ok("C03", "system legs exchanged by _apply_pt_mpos(reverse=True) instead of by the backward MPO copies", _multi(
+    _AP_SYS_FLAGGED, _sub(SD, _BP_SYS_SWAP, '')))
+
 for _pid in ["C01", "C02", "C03", "C04", "C05", "C06", "C07", "C08", "C09", "C10", "C11", "C12", "C13",
              "C14", "C15", "C16", "C17", "C18", "C19", "C20"]:
     ok(_pid, "whole package re-printed with ast.unparse (layout, comments, line numbers)", _reformat_all)
@@ -1698,6 +1759,7 @@ _TR_GUARD = _sub(TEBDB, '        """Compute current traces of the augmented MPS.
                  '        """Compute current traces of the augmented MPS. """\n        if self._total_trace is not None:\n            return\n')
 brk("C14", "chain traces recomputed only when missing, never reset by the gates", "T7", _TR_GUARD)
 brk("C20", "chain traces recomputed only when missing, never reset by the gates", "A7b", _TR_GUARD)
+brk("C10", "chain traces recomputed only when missing, never reset by the gates", "I9", _TR_GUARD)
 # ---------------------------------------- Control keeps its own copy (C20 A8)
 brk("C20", "Control.add_single stores the caller's array itself", "A8", _sub(
     CT, "        control_operation = np.array(control_operation, dtype=NpDtype)\n", ""))
